@@ -804,7 +804,7 @@ func (l *Lowerer) rangeStmt(x *ast.RangeStmt, label string) {
 		visVar := fmt.Sprintf("$rv%d", id)
 		l.assign(visVar, visSort, App("(as const "+visSort+")", visSort, tFalse))
 		vis := V(visVar, visSort)
-		hidden := map[string]envEntry{"$visited": {vis, nil}, "$m": {mv, xt}}
+		hidden := map[string]envEntry{"$visited": {vis, types.NewArray(types.Typ[types.Bool], 1<<62)}, "$m": {mv, xt}}
 		head, post, exit, li, ord, ls := l.beginLoop(label, nil)
 		l.invClauses(ls, hidden, "inv-entry", ord, x)
 		l.jump(head)
@@ -1559,6 +1559,9 @@ func (l *Lowerer) chanKey(e ast.Expr) string {
 }
 
 func (l *Lowerer) chanSend(ch *Term, chExpr ast.Expr, v *Term, vt types.Type, node ast.Node) {
+	// ghost: number of values sent on each channel
+	cnt := l.heapVar(chanSentVar(l.typeOf(chExpr)), "Int")
+	l.assign(cnt.Name, cnt.Sort, Store(cnt, ch, Add(Select(cnt, ch), IntLit(1))))
 	key := l.chanKey(chExpr)
 	cs := l.p.chanSpecs[key]
 	if cs == nil {
@@ -1741,4 +1744,17 @@ func (l *Lowerer) lockOp(lock *Term, acquire bool, node ast.Node) {
 	if l.cur != nil {
 		l.acqPoints = append(l.acqPoints, acqPoint{l.cur, len(l.cur.Stmts)})
 	}
+}
+
+// chanSentVar: the ghost send counter of channels of one element type (channels of different types are
+// different objects).
+func chanSentVar(t types.Type) string {
+	name := "any"
+	if t != nil {
+		if ct, ok := t.Underlying().(*types.Chan); ok {
+			name = types.TypeString(ct.Elem(), func(*types.Package) string { return "" })
+			name = strings.NewReplacer("[", "_", "]", "_", "*", "p", " ", "", "{", "_", "}", "_", ".", "_", "(", "_", ")", "_", ",", "_").Replace(name)
+		}
+	}
+	return "F.$chan.sent." + name
 }
